@@ -5,14 +5,16 @@ MOD = 'vf.harness.c03'
 def jobs(ctx):
     J = []
 
-    def j(R, C, D, m, inv='-9999', stripe=None, subpix=1, cap=None):
+    def j(R, C, D, m, inv='-9999', stripe=None, subpix=1, cap=None, nan_upto=0):
         J.append({'mod': MOD, 'fn': 'wta', 'mode': 'sym',
                   'args': {'R': R, 'C': C, 'D': D, 'measure': m, 'invalid': inv, 'stripe': stripe, 'seed': ctx.seed,
-                           'subpix': subpix, 'cap': cap or (60 if ctx.quick else 300)}})
+                           'subpix': subpix, 'cap': cap or (60 if ctx.quick else 300), 'nan_upto': nan_upto}})
     for m in ('min', 'max'):
         j(2, 2, 3, m); j(1, 2, 3, m, 'nan'); j(1, 1, 3, m, 'sym'); j(1, 2, 2, m, subpix=2)
         j(101, 1, 2, m, stripe=(0, 98, 101)); j(1, 101, 2, m, stripe=(1, 98, 101))
         j(1, 2, 257, m, stripe=(2, 0, 2))      # counts of computable costs around 256 (narrow integer types)
+        # a whole leading 100-pixel block without any computable cost (no-data area), then two more blocks
+        j(1, 203, 2, m, stripe=(1, 199, 203), nan_upto=100); j(203, 1, 2, m, stripe=(0, 199, 203), nan_upto=100)
     if not ctx.quick:
         for m in ('min', 'max'):
             j(3, 4, 4, m); j(2, 2, 4, m, 'nan', subpix=4)
